@@ -853,6 +853,57 @@ pub mod relink {
     }
 }
 
+// ---------------------------------------------------------------- R-TOUCH / R-LOCKCOV.lru
+pub mod lrufx {
+    use std::collections::HashMap;
+    use std::sync::RwLock;
+    pub struct Node {
+        pub value: u64,
+        pub stamp: u64,
+    }
+    pub struct LruList {
+        pub order: RwLock<Vec<u32>>,
+    }
+    impl LruList {
+        pub fn move_to_head(&self, nodes: &mut [Node], idx: u32) {
+            nodes[idx as usize].stamp += 1;
+            let mut o = self.order.write().unwrap();
+            o.retain(|&x| x != idx);
+            o.insert(0, idx);
+        }
+    }
+    pub struct Map {
+        pub hash_map: RwLock<HashMap<u32, u32>>,
+        pub nodes: RwLock<Vec<Node>>,
+        pub list: LruList,
+    }
+    impl Map {
+        pub fn ok_get(&self, key: u32) -> Option<u64> {
+            let index = self.hash_map.read().ok()?;
+            let idx = *index.get(&key)?;
+            let mut nodes = self.nodes.write().ok()?;
+            self.list.move_to_head(&mut nodes, idx);
+            Some(nodes[idx as usize].value)
+        }
+        pub fn bad_get_notouch(&self, key: u32) -> Option<u64> {
+            let index = self.hash_map.read().ok()?;
+            let idx = *index.get(&key)?;
+            let mut nodes = self.nodes.write().ok()?;
+            nodes[idx as usize].stamp += 1;
+            Some(nodes[idx as usize].value)
+        }
+        pub fn bad_get_unlocked(&self, key: u32) -> Option<u64> {
+            let idx = {
+                let index = self.hash_map.read().ok()?;
+                *index.get(&key)?
+            };
+            let mut nodes = self.nodes.write().ok()?;
+            self.list.move_to_head(&mut nodes, idx);
+            Some(nodes[idx as usize].value)
+        }
+    }
+}
+
 // ---------------------------------------------------------------- R-VARIANT
 pub mod variant {
     pub enum Storage {
